@@ -395,6 +395,13 @@ impl<'a, T: Evaluate> PiecewiseEvaluator<'a, T> {
     // instances for references.
     #[inline]
     pub fn evaluate(&mut self, x: f64) -> f64 {
+        // NaN compares false with everything: direct evaluation falls through
+        // to the last segment. Answer the same way without touching the
+        // cursor, otherwise the NaN would be remembered as the last argument
+        // and every later query would be sent to the wrong segment.
+        if x.is_nan() {
+            return self.last.evaluate(x);
+        }
         // If the new evaluation is for value higher than previous
         // one, we want to start searching for the segment from the
         // last segment we have recorded: we already know there is no
